@@ -120,7 +120,9 @@ def step (line : String) : String :=
     s!"code={m.code.num} native={m.native} client={m.clientCode.num}"
   | ["E2E", t2ctx, nf] =>
     -- a module fails on tier 2 (its context alive / dead), after `nf` transient faults
-    let c2 := (mapErr SV.C16.Gen.tier2Table .none (moduleFailure (parseCtx t2ctx))).code
+    -- t2ctx: "-" | "C" | "D" (runtime error) or "p-" | "pC" | "pD" (the module panicked)
+    let panicked := t2ctx.startsWith "p"
+    let c2 := (mapErr SV.C16.Gen.tier2Table .none (moduleFailureP panicked (parseCtx (if panicked then (t2ctx.drop 1).toString else t2ctx)))).code
     let fault : Step := ⟨.stream false [.err (statusErr .unavailable)], none⟩
     let failing : Step := ⟨.stream false [.msg .update, .err (statusErr c2)], none⟩
     let fine : Step := ⟨.stream false [.msg .update], none⟩
